@@ -188,6 +188,25 @@ def gen(seed, scale):
     # PIX
     for side in (2, 4, 128, 256):
         cases.append(("pixtopgm", content(rnd, side * side // 2, "rand"), {}, "pix/side=%d" % side, "raw"))
+    cases.append(("pixtopgm", bytes(range(256)) * 2, {}, "pix/every byte value", "raw"))
+    cases.append(("pixtopgm", bytes(512), {}, "pix/all zero", "raw"))
+    cases.append(("pixtopgm", bytes([255]) * 512, {}, "pix/all ones", "raw"))
+    # VEF: three uncompressed types, and the same pictures squashed (400 records)
+    for typ, nbytes, rec in ((0, 32000, 80), (1, 32000, 80), (3, 16000, 40)):
+        for kind in ("rand", "runs", "nib") if scale > 1 else ("rand",):
+            pal = [rnd.randrange(64) for _ in range(16)]
+            body = content(rnd, nbytes, kind)
+            cases.append(("veftopng", bytes([0, typ]) + bytes(pal) + body, {}, "vef/type=%d,raw,%s" % (typ, kind), "raw"))
+            sq = bytearray([128, typ]) + bytes(pal)
+            ok = True
+            for k in range(400):
+                r = enc_squash(body[k * rec:(k + 1) * rec], rnd)
+                if len(r) > 255:
+                    ok = False
+                    break
+                sq += bytes([len(r)]) + r
+            if ok:
+                cases.append(("veftopng", bytes(sq), {}, "vef/type=%d,squashed,%s" % (typ, kind), "packed"))
     # unsquash
     for _ in range(6 + 6 * scale):
         n = rnd.choice((1, 2, 127, 128, 129, 1000, 16000))
@@ -281,6 +300,16 @@ def run(prop, rep, seed, scale=1):
     return len(cases), len(bad)
 
 
+def run_tool(prop, rep, tool, seed, what):
+    """bounded stand-in for one decoder whose pixel clause is not under contract (quick and thorough tiers)"""
+    cases = [c for c in gen(seed, 1) if c[0] == tool and c[4] in ("raw", "packed")]
+    bad, counts = evaluate(prop, cases)
+    rep.bounded.append(dict(check="%s/differential/%s (%s)" % (prop, tool, what), bound="%d generated files (seed %d)" % (len(cases), seed), held=not bad))
+    for b in bad[:3]:
+        rep.violation("%s/differential/%s" % (prop, b["label"]), dict(detail="bounded differential stand-in", replay=b, replay_cmd="./check %s --replay <this file>" % prop), True)
+    return len(cases), len(bad)
+
+
 def find_failing(prop, tool, seed=0):
     """used when a proof obligation fails and the solver's own counterexample does not replay: look for a concrete file of
     that decoder on which the real code contradicts the executable specification (a witness for the report, never a verdict)"""
@@ -304,6 +333,34 @@ def evaluate(prop, cases):
         ok_return = r["outcome"] == "return" and r.get("result") is not False
         why = None
         if dp.known_case(tool, data, opts, ref):
+            continue
+        if tool == "veftopng":
+            e = ref.ref_vef(data)
+            png = r.get("png")
+            if fam != "damaged" and prop in ("C16", "C17", "C18"):
+                if e is None:
+                    why = "generator produced a VEF the executable specification rejects (generator defect, not a verdict)"
+                elif r["outcome"] != "return" or not png:
+                    why = "real decoder failed on a well-formed VEF: %s %s" % (r["outcome"], r.get("exception") or r.get("exit_code"))
+                elif "error" in png:
+                    why = "the PNG cannot be read back: %s" % png["error"]
+                elif (png["width"], png["height"]) != (e[0], e[1]):
+                    why = "PNG is %dx%d, the type byte dictates %dx%d" % (png["width"], png["height"], e[0], e[1])
+                elif png.get("planes") != 1 or len(png.get("palette") or []) < 64:
+                    why = "PNG is not a palette image with 64 entries (planes=%s, palette entries=%d)" % (png.get("planes"), len(png.get("palette") or []))
+                elif prop != "C18":
+                    got = list(base64.b64decode(png["pixels_b64"]))
+                    if any(list(ref.px6(k)) != png["palette"][k] for k in range(64)):
+                        why = "palette entry differs from the six-bit colour code"
+                    elif got != e[2]:
+                        k = next(i for i in range(min(len(got), len(e[2]))) if got[i] != e[2][i]) if len(got) == len(e[2]) else -1
+                        why = "pixel %d is palette index %s, expected %s" % (k, got[k] if k >= 0 else "?", e[2][k] if k >= 0 else "?")
+            else:
+                if r["outcome"] == "return" and png and "error" not in png and png["samples"] != png["width"] * png["height"] * (png.get("planes") or 1):
+                    why = "success reported with %d samples in a %dx%d PNG" % (png["samples"], png["width"], png["height"])
+            if why:
+                bad.append(dict(tool=tool, label=label, family=fam, opts=opts, input_b64=base64.b64encode(data).decode(), input_len=len(data),
+                                real={k: v for k, v in r.items() if k not in ("out_b64", "png")}, png={k: v for k, v in (png or {}).items() if k != "pixels_b64"}, mismatch=why))
             continue
         if tool == "unsquash":
             exp = ref.ref_unsquash(data, opts["count"], opts["orig_len"])
@@ -336,6 +393,6 @@ def evaluate(prop, cases):
                 elif prop == "C18" and e is not None and fam != "damaged":
                     why = "real decoder failed on a well-formed file: %s %s" % (r["outcome"], r.get("exception") or r.get("exit_code"))
         if why:
-            bad.append(dict(tool=tool, label=label, opts=opts, input_b64=base64.b64encode(data).decode() if len(data) < 200000 else None, input_len=len(data),
+            bad.append(dict(tool=tool, label=label, family=fam, opts=opts, input_b64=base64.b64encode(data).decode() if len(data) < 200000 else None, input_len=len(data),
                             real={k: v for k, v in r.items() if k != "out_b64"}, mismatch=why))
     return bad, counts
